@@ -4,8 +4,10 @@
 package c18
 
 import (
+	"bytes"
 	"crypto/tls"
 	"crypto/x509"
+	"encoding/pem"
 	"fmt"
 	"net"
 	"os"
@@ -176,6 +178,8 @@ func runCell(c Cell) (*ev.Failure, bool) {
 		return clientVsCollector(c)
 	case "sequence":
 		return sequence(c)
+	case "collector_bad_ca":
+		return badClientCA(c)
 	}
 	return plaintext(c)
 }
@@ -428,6 +432,60 @@ func clientVsCollector(c Cell) (*ev.Failure, bool) {
 		return ev.Failf("collector did not deliver the message of a client it must accept (cell %+v)", c), false
 	}
 	return nil, got
+}
+
+// badClientCA: the collector is configured with a client CA that cannot be used (Plain names the
+// form). It may refuse to start; if it does listen, it has no basis for accepting anybody: a client
+// without a certificate, or with one of another CA, must not get a message through.
+func badClientCA(c Cell) (*ev.Failure, bool) {
+	der, _ := pem.Decode(caGood.CertPEM)
+	forms := map[string][]byte{
+		"bom_before_pem":      append([]byte{0xEF, 0xBB, 0xBF}, caGood.CertPEM...),
+		"der_not_pem":         der.Bytes,
+		"empty":               {},
+		"trusted_certificate": bytes.ReplaceAll(caGood.CertPEM, []byte("CERTIFICATE-----"), []byte("TRUSTED CERTIFICATE-----")),
+		"garbage":             []byte("not a certificate at all"),
+	}
+	in := collector.CollectorInput{Address: "127.0.0.1:0", Protocol: "tcp", MaxBufferSize: 65535, IsEncrypted: true, ServerCert: collectorCert.CertPEM, ServerKey: collectorCert.KeyPEM, CACert: forms[c.Plain]}
+	cp, err := collector.InitCollectingProcess(in)
+	if err != nil {
+		return nil, false // refused at construction
+	}
+	col := &cut{cp: cp}
+	go cp.Start()
+	go func() {
+		for m := range cp.GetMsgChan() {
+			col.mu.Lock()
+			col.msgs = append(col.msgs, m)
+			col.mu.Unlock()
+		}
+	}()
+	for i := 0; i < 600 && cp.GetAddress() == nil; i++ {
+		time.Sleep(time.Millisecond)
+	}
+	defer cp.Stop()
+	if cp.GetAddress() == nil {
+		return nil, false // it does not listen with such a CA: nobody gets in
+	}
+	roots := x509.NewCertPool()
+	roots.AppendCertsFromPEM(caGood.CertPEM)
+	cfg := &tls.Config{RootCAs: roots, ServerName: "localhost", MinVersion: tls.VersionTLS12}
+	if l := clientCerts[c.ClientCert]; l != nil {
+		if kp, err := tls.X509KeyPair(l.CertPEM, l.KeyPEM); err == nil {
+			cfg.Certificates = []tls.Certificate{kp}
+		}
+	}
+	conn, err := tls.DialWithDialer(&net.Dialer{Timeout: 5 * time.Second}, "tcp", cp.GetAddress().String(), cfg)
+	if err != nil {
+		return nil, false
+	}
+	conn.Write(ref.TemplateMessage(ref.Header{Domain: 4242}, ref.Template{ID: 256, Fields: tplFields}))
+	got := col.waitDelivered(4242, 1500*time.Millisecond)
+	conn.Close()
+	if got {
+		return ev.Failf("a collector configured with a client CA that cannot be used (%s) listens and delivered a message from a client presenting %s", c.Plain, map[string]string{"none": "no certificate", "other_ca": "a certificate of another CA"}[c.ClientCert]), true
+	}
+	return nil, false
 }
 
 func plaintext(c Cell) (*ev.Failure, bool) {
@@ -811,6 +869,11 @@ func cells() []Cell {
 			for _, v := range []string{"1.1", "1.2", "1.3"} {
 				out = append(out, Cell{Dir: "collector", Proto: "tls", ClientCert: cc, ClientCA: ca, MaxVersion: v})
 			}
+		}
+	}
+	for _, form := range []string{"bom_before_pem", "der_not_pem", "empty", "trusted_certificate", "garbage"} {
+		for _, cc := range []string{"none", "other_ca"} {
+			out = append(out, Cell{Dir: "collector_bad_ca", Proto: "tls", ClientCert: cc, ClientCA: true, Plain: form})
 		}
 	}
 	for _, sn := range []string{"matching", "unset"} {
